@@ -2,6 +2,7 @@ package main
 
 import (
 	"fmt"
+	"go/token"
 	"go/types"
 	"strings"
 
@@ -9,22 +10,24 @@ import (
 )
 
 const (
-	c45Pkg  = "lib/datastructures/hashring"
-	c45File = "lib/datastructures/hashring/hashring.go"
+	c45Pkg     = "lib/datastructures/hashring"
+	c45File    = "lib/datastructures/hashring/hashring.go"
+	c45MgrFile = "felix/dataplane/linux/proxy_neigh_mgr.go"
 )
 
 func init() {
 	register(&Property{
 		ID:        "C45",
 		Title:     "Every node elects the same owner for a load-balancer address",
-		Technique: "static analysis: sorted-flag pairing and cut-set guard of the binary search (E-PAIR/E-GUARD), comparator field closure (E-FIELDS), sweep pairing, determinism lint (E-DET) on go/ssa + go/ast of lib/datastructures/hashring",
+		Technique: "static analysis: sorted-flag pairing and cut-set guard of the binary search (E-PAIR/E-GUARD), comparator field closure (E-FIELDS), sweep pairing, determinism lint (E-DET) on go/ssa + go/ast of lib/datastructures/hashring; mutation/dirty pairing with a before/after size-bracket exemption and size-derived-branch ownership (E-PAIR/E-OWN) on proxyNeighManager in felix/dataplane/linux",
 		DesignRef: "DESIGN.md §3 C45",
 		Explanation: "History-independence clauses of hashring.Ring: (sorted) every store into `entries` is either an order-preserving slices helper (Grow/DeleteFunc/Delete/Clip) or is followed on every path by sorted=false; sorted=true is only stored after a sort of `entries`; every binary search of `entries` is reachable only through the sort or a sorted==true edge. " +
 			"(total) the sort comparator reads every field of `entry` (ties on the hash are broken by the key, so the order does not depend on insertion history). " +
 			"(sweep) the sweep that drops dead entries also deletes every swept key from `members` and clears `deletedKeys`, and it is guarded by the same pending set the predicate tests (a swept key can be re-inserted with fresh virtual nodes). " +
 			"(insert) virtual nodes are appended only for keys that are neither live nor pending deletion, and each appended entry carries saltedHash(key, i) and the same key. " +
+			"(apply) in the ring's consumer, felix/dataplane/linux proxyNeighManager, every call of a member-set mutator of the ring (Insert/Remove, derived from the ring's source) is followed on every path by dirty=true, except on the size-unchanged edge of a Len() comparison that brackets exactly that one call; in the functions that decide dirtiness the ring's size feeds no other branch and is never cached (a join plus a leave keep the size but change the owners). " +
 			"(det) no architecture-/process-dependent primitive and no order-sensitive map iteration in the closure of New/Insert/Remove/Len/Lookup.",
-		NotDecided: "That the hash function (xxh3 by default, or one supplied with WithHash) is node-independent; arithmetic of the nearest-probe selection; that all nodes feed the ring the same member set (proxy_neigh_mgr); balance.",
+		NotDecided: "That the hash function (xxh3 by default, or one supplied with WithHash) is node-independent; arithmetic of the nearest-probe selection; that all nodes feed the ring the same member set (proxy_neigh_mgr); that dirty=true actually leads to reconcileListeners (CompleteDeferredWork's gate is only checked for not deriving from the ring's size); balance.",
 		Assumptions: []string{
 			"go/types + go/ssa (x/tools v0.50.0) model of the current source (module lib/datastructures)",
 			"slices.DeleteFunc/Delete/Grow/Clip preserve the relative order of the remaining elements; slices.SortFunc sorts by the comparator",
@@ -43,6 +46,12 @@ func init() {
 				Old: "\t\tfor k := range r.deletedKeys {\n\t\t\tdelete(r.members, k)\n\t\t}\n", New: "", Expect: "C45.sweep/Ring.Lookup/members"},
 			{Name: "re-insert of a live key adds virtual nodes again", File: c45File,
 				Old: "\tif _, ok := r.members[key]; ok {\n\t\tr.members[key] = value\n\t\treturn\n\t}\n", New: "", Expect: "C45.insert/Ring.Insert/guard"},
+			{Name: "node join no longer marks the neighbour manager dirty", File: c45MgrFile,
+				Old: "Debug(\"Proxy neighbor manager received HostMetadataUpdate\")\n\t\t\tm.dirty = true\n", New: "Debug(\"Proxy neighbor manager received HostMetadataUpdate\")\n", Expect: "C45.ringdirty/proxyNeighManager.OnUpdate/Insert"},
+			{Name: "before-size sampled after the removal", File: c45MgrFile,
+				Old: "\t\tbefore := m.nodeRing.Len()\n\t\tm.nodeRing.Remove(msg.Hostname)\n", New: "\t\tm.nodeRing.Remove(msg.Hostname)\n\t\tbefore := m.nodeRing.Len()\n", Expect: "C45.ringdirty/proxyNeighManager.OnUpdate/Remove"},
+			{Name: "reconcile gated on the ring's size", File: c45MgrFile,
+				Old: "\tif !m.dirty && !m.hasFailedListener() {\n", New: "\tif (!m.dirty || m.nodeRing.Len() == 0) && !m.hasFailedListener() {\n", Expect: "C45.ringsize/proxyNeighManager"},
 			{Name: "virtual node position depends on the host byte order", File: c45File,
 				Old: "binary.LittleEndian.PutUint32(idx[:], uint32(i))", New: "binary.NativeEndian.PutUint32(idx[:], uint32(i))", Expect: "C45.det/arch/Ring.saltedHash"},
 			{Name: "sweep stops after the first pending key in map order", File: c45File,
@@ -66,6 +75,8 @@ func runC45(c *Ctx) {
 	c.Rule("C45.total", "E-FIELDS", "the sort comparator reads every field of entry", 1)
 	c.Rule("C45.sweep", "E-PAIR", "sweep of dead entries is guarded by the pending set, deletes the swept keys from members and clears the pending set", 3)
 	c.Rule("C45.insert", "E-GUARD/E-FLOW", "entries appended only for keys neither live nor pending; appended entry = {saltedHash(key,i), key}", 2)
+	c.Rule("C45.ringdirty", "E-PAIR", "in proxyNeighManager every call of a member-set mutator of the ring (Insert/Remove) is followed on every path by dirty=true, except on the `equal` edge of a comparison of Ring.Len() taken immediately before and after that single call (the call was a no-op)", 2)
+	c.Rule("C45.ringsize", "E-OWN", "in the functions of proxyNeighManager that decide dirtiness, a value of Ring.Len() only feeds a branch as such a before/after bracket of one mutation, and is never cached in the manager: size is not membership", 1)
 	c.Rule("C45.det", "E-DET", "no arch/process-dependent primitive, no order-sensitive map iteration in the ring's closure", 12)
 
 	m := &c45Model{c: c, p: p}
@@ -119,6 +130,8 @@ func runC45(c *Ctx) {
 	c45Total(m)
 	c45Sweep(m)
 	c45Insert(m)
+
+	c45Manager(m)
 
 	cl := detClosure(p, m.newFn, m.insert, m.remove, m.lookup, m.length)
 	rep := detLint(p, cl, detOpts{})
@@ -504,5 +517,354 @@ func c45Insert(m *c45Model) {
 	}
 	if n == 0 {
 		c.Lost("no append to Ring.%s", m.entries.Name())
+	}
+}
+
+// ------------------------------------------------------------ ring consumer --
+
+// c45Manager: the consumer side in felix/dataplane/linux.  proxyNeighManager
+// recomputes which VIPs this node answers for only when `dirty`; every change
+// of the ring's member set must therefore set it.  One Insert/Remove changes
+// the member set iff it changes Len(), so skipping dirty=true is sound exactly
+// on the `equal` edge of a Len() comparison that brackets that single call; any
+// other use of the size (compared across several mutations, across batches,
+// with a cached number) cannot tell a join+leave from no change.
+func c45Manager(m *c45Model) {
+	c := m.c
+	const mgrT = "proxyNeighManager"
+	p := c.Load(c44Pkg)
+	tn, _ := p.LookupObj(c44Pkg, mgrT).(*types.TypeName)
+	if tn == nil {
+		c.Lost("type %s", mgrT)
+	}
+	st, _ := tn.Type().Underlying().(*types.Struct)
+	if st == nil {
+		c.Lost("%s is not a struct", mgrT)
+	}
+	isRingT := func(t types.Type) bool {
+		n, _ := derefType(t).(*types.Named)
+		return n != nil && n.Obj().Name() == "Ring" && n.Obj().Pkg() != nil && strings.HasSuffix(n.Obj().Pkg().Path(), c45Pkg)
+	}
+	var ringF []*types.Var
+	for i := 0; i < st.NumFields(); i++ {
+		if isRingT(st.Field(i).Type()) {
+			ringF = append(ringF, st.Field(i))
+		}
+	}
+	dirtyF, _ := p.LookupObj(c44Pkg, mgrT+".dirty").(*types.Var)
+	if len(ringF) == 0 || dirtyF == nil {
+		c.Lost("%s: hashring.Ring field / dirty field", mgrT)
+	}
+	// member-set mutators of Ring, derived from the ring's own source: exported
+	// methods that store into the member map or the pending-delete map.
+	mut := map[string]bool{}
+	for _, f := range m.p.methodsOf(c45Pkg, "Ring") {
+		if f.Object() == nil || !f.Object().Exported() {
+			continue
+		}
+		for _, g := range withClosures([]*ssa.Function{f}) {
+			allInstrs(g, false, func(_ *ssa.Function, in ssa.Instruction) {
+				if mu, ok := in.(*ssa.MapUpdate); ok && (c45Is(mu.Map, m.members) || c45Is(mu.Map, m.deleted)) {
+					mut[f.Name()] = true
+				}
+			})
+		}
+	}
+	if !mut[m.insert.Name()] || !mut[m.remove.Name()] || mut[m.length.Name()] {
+		c.Lost("member-set mutators of Ring derived as %v; expected Insert and Remove, not Len", sortedKeys(mut))
+	}
+	isRingField := func(v ssa.Value) bool {
+		fv := fieldVar(v)
+		for _, f := range ringF {
+			if fv == f {
+				return true
+			}
+		}
+		return false
+	}
+	ringCall := func(in ssa.Instruction) (string, bool) {
+		ci, ok := in.(ssa.CallInstruction)
+		if !ok {
+			return "", false
+		}
+		f := calleeOf(ci.Common())
+		if f == nil || f.Signature().Recv() == nil || !isRingT(f.Signature().Recv().Type()) {
+			return "", false
+		}
+		args := ci.Common().Args
+		if len(args) == 0 || !isRingField(args[0]) {
+			return "", false
+		}
+		return f.Name(), true
+	}
+	lenName := m.length.Name()
+	mgrFuncs := withClosures(p.methodsOf(c44Pkg, mgrT))
+
+	// per-function facts
+	type fnFacts struct {
+		f           *ssa.Function
+		muts, lens  []ssa.Instruction
+		dirtyTrue   []ssa.Instruction
+		storesDirty bool
+	}
+	facts := map[*ssa.Function]*fnFacts{}
+	for _, f := range mgrFuncs {
+		ff := &fnFacts{f: f}
+		allInstrs(f, false, func(_ *ssa.Function, in ssa.Instruction) {
+			if n, ok := ringCall(in); ok {
+				if mut[n] {
+					ff.muts = append(ff.muts, in)
+				} else if n == lenName {
+					ff.lens = append(ff.lens, in)
+				}
+			}
+			if s, ok := in.(*ssa.Store); ok && fieldVar(s.Addr) == dirtyF {
+				ff.storesDirty = true
+				if cv, ok := constOf(s.Val); ok && cv.ExactString() == "true" {
+					ff.dirtyTrue = append(ff.dirtyTrue, in)
+				}
+			}
+		})
+		facts[f] = ff
+	}
+	isLen := func(ff *fnFacts, v ssa.Value) ssa.Instruction {
+		v = c44Strip(v)
+		for _, l := range ff.lens {
+			if lv, ok := l.(ssa.Value); ok && lv == v {
+				return l
+			}
+		}
+		return nil
+	}
+	// bracket: cond is Len()@A ==/!= Len()@B with exactly one mutator call able
+	// to run between A and B, which A dominates and which dominates B.  Returns
+	// that call and whether cond==true means "size unchanged".
+	bracket := func(ff *fnFacts, cond ssa.Value) (ssa.Instruction, bool) {
+		bo, ok := cond.(*ssa.BinOp)
+		if !ok || (bo.Op != token.EQL && bo.Op != token.NEQ) {
+			return nil, false
+		}
+		a, b := isLen(ff, bo.X), isLen(ff, bo.Y)
+		if a == nil || b == nil || a == b {
+			return nil, false
+		}
+		if !instrDominates(a, b) {
+			a, b = b, a
+		}
+		if !instrDominates(a, b) {
+			return nil, false
+		}
+		var between []ssa.Instruction
+		for _, mc := range ff.muts {
+			if instrReaches(a, mc) && instrReaches(mc, b) {
+				between = append(between, mc)
+			}
+		}
+		if len(between) != 1 || !instrDominates(a, between[0]) || !instrDominates(between[0], b) {
+			return nil, false
+		}
+		return between[0], bo.Op == token.EQL
+	}
+	// exemptFn: cond (negations stripped) is known to mean "the call at site
+	// left the member set unchanged" when it has the returned truth value.
+	type exemptFn func(cond ssa.Value) (is, unchangedWhenTrue bool)
+	// pairBad: "" if every path from site to a return of its function crosses
+	// dirty=true, not counting the `unchanged` edges; else a description.
+	pairBad := func(ff *fnFacts, site ssa.Instruction, exempt exemptFn) string {
+		hasDirtyAfter := func(b *ssa.BasicBlock, from int) bool {
+			for _, d := range ff.dirtyTrue {
+				if d.Block() == b && instrIndex(d) > from {
+					return true
+				}
+			}
+			return false
+		}
+		if hasDirtyAfter(site.Block(), instrIndex(site)) {
+			return ""
+		}
+		bad := ""
+		seen := map[*ssa.BasicBlock]bool{}
+		var stack []*ssa.BasicBlock
+		push := func(b *ssa.BasicBlock) {
+			switch t := b.Instrs[len(b.Instrs)-1].(type) {
+			case *ssa.Return:
+				at := "the end of " + fnName(ff.f)
+				if t.Pos().IsValid() {
+					at = "the return at " + p.Pos(t.Pos())
+				}
+				bad = at + " is reachable after the call without dirty=true"
+			case *ssa.If:
+				cc, pol := stripNot(t.Cond, true)
+				if is, unchangedWhenTrue := exempt(cc); is && len(b.Succs) == 2 {
+					// follow only the `changed` edge
+					if unchangedWhenTrue == pol {
+						stack = append(stack, b.Succs[1])
+					} else {
+						stack = append(stack, b.Succs[0])
+					}
+					return
+				}
+				stack = append(stack, b.Succs...)
+			default:
+				stack = append(stack, b.Succs...)
+			}
+		}
+		push(site.Block())
+		for len(stack) > 0 && bad == "" {
+			b := stack[len(stack)-1]
+			stack = stack[:len(stack)-1]
+			if seen[b] {
+				continue
+			}
+			seen[b] = true
+			if isPanicBlock(b) || hasDirtyAfter(b, -1) {
+				continue
+			}
+			push(b)
+		}
+		return bad
+	}
+	// reportsChange: every return of ff.f reachable after site yields the
+	// bracket comparison of site itself; gives the polarity "true = changed".
+	reportsChange := func(ff *fnFacts, site ssa.Instruction) (ok, changedWhenTrue bool) {
+		res := ff.f.Signature.Results()
+		if res.Len() != 1 || !types.Identical(res.At(0).Type().Underlying(), types.Typ[types.Bool]) {
+			return false, false
+		}
+		n := 0
+		for _, r := range returnsOf(ff.f) {
+			if !instrReaches(site, r) {
+				continue
+			}
+			cc, pol := stripNot(r.Results[0], true)
+			bm, eqWhenTrue := bracket(ff, cc)
+			if bm != site {
+				return false, false
+			}
+			chg := eqWhenTrue != pol
+			if n > 0 && chg != changedWhenTrue {
+				return false, false
+			}
+			changedWhenTrue = chg
+			n++
+		}
+		return n > 0, changedWhenTrue
+	}
+	// checkSite: the pairing holds at site, or site's function hands the duty to
+	// all of its callers inside the manager (extracted helper), where the call
+	// is the mutation and — if the helper returns the bracket comparison — a
+	// branch on its result is the `unchanged` test.
+	var checkSite func(ff *fnFacts, site ssa.Instruction, exempt exemptFn, depth int) string
+	checkSite = func(ff *fnFacts, site ssa.Instruction, exempt exemptFn, depth int) string {
+		bad := pairBad(ff, site, exempt)
+		if bad == "" || depth >= 2 {
+			return bad
+		}
+		type caller struct {
+			ff *fnFacts
+			in ssa.Instruction
+		}
+		var callers []caller
+		for _, g := range mgrFuncs {
+			allInstrs(g, false, func(_ *ssa.Function, in ssa.Instruction) {
+				if ci, ok := in.(ssa.CallInstruction); ok && calleeFn(ci.Common()) == ff.f {
+					callers = append(callers, caller{facts[g], in})
+				}
+			})
+		}
+		if len(callers) == 0 {
+			return bad
+		}
+		rep, changedWhenTrue := reportsChange(ff, site)
+		for _, cl := range callers {
+			cv, _ := cl.in.(ssa.Value)
+			ex := func(cond ssa.Value) (bool, bool) {
+				if rep && cv != nil && cond == cv {
+					return true, !changedWhenTrue
+				}
+				return false, false
+			}
+			if b2 := checkSite(cl.ff, cl.in, ex, depth+1); b2 != "" {
+				return bad + "; and in its caller " + fnName(cl.ff.f) + " " + b2
+			}
+		}
+		return ""
+	}
+
+	nMut := 0
+	var why, sizeFns []string
+	for _, f := range mgrFuncs {
+		ff := facts[f]
+		// E-PAIR
+		for _, mc := range ff.muts {
+			nMut++
+			mc := mc
+			name, _ := ringCall(mc)
+			key := fmt.Sprintf("C45.ringdirty/%s/%s", fnName(f), name)
+			bad := checkSite(ff, mc, func(cond ssa.Value) (bool, bool) {
+				bm, eqWhenTrue := bracket(ff, cond)
+				return bm == mc, eqWhenTrue
+			}, 0)
+			c.Check(bad == "", key, p.Pos(mc.Pos()),
+				"ring."+name+" is followed by dirty=true on every path on which it may have changed the member set",
+				fmt.Sprintf("%s calls %s on the node ring, but %s (other than on the size-unchanged edge of a Len() comparison bracketing this one call): the listeners keep the VIP ownership computed from the previous member set, so this node's answer differs from a freshly started node's", fnName(f), name, bad))
+		}
+		// E-OWN: functions that decide dirtiness, or report a size bracket to one
+		if len(ff.lens) == 0 {
+			continue
+		}
+		reporter := false
+		for _, mc := range ff.muts {
+			if ok, _ := reportsChange(ff, mc); ok {
+				reporter = true
+			}
+		}
+		if !ff.storesDirty && !reporter {
+			continue
+		}
+		sizeFns = append(sizeFns, fnName(f))
+		for _, b := range f.Blocks {
+			ifi, ok := b.Instrs[len(b.Instrs)-1].(*ssa.If)
+			if !ok {
+				continue
+			}
+			cc, _ := stripNot(ifi.Cond, true)
+			fromLen := false
+			c44BackSlice(cc, func(v ssa.Value) {
+				if isLen(ff, v) != nil {
+					fromLen = true
+				}
+			})
+			if !fromLen {
+				continue
+			}
+			if bm, _ := bracket(ff, cc); bm == nil {
+				why = append(why, fmt.Sprintf("in %s the branch on `%s` at %s derives from the ring's size but is not a comparison of Len() taken immediately before and after one Insert/Remove", fnName(f), path(cc), p.Pos(cc.Pos())))
+			}
+		}
+		allInstrs(f, false, func(_ *ssa.Function, in ssa.Instruction) {
+			s, ok := in.(*ssa.Store)
+			if !ok {
+				return
+			}
+			fa, ok := s.Addr.(*ssa.FieldAddr)
+			if !ok {
+				return
+			}
+			if n, _ := derefType(fa.X.Type()).(*types.Named); n == nil || n.Obj() != tn {
+				return
+			}
+			c44BackSlice(s.Val, func(v ssa.Value) {
+				if isLen(ff, v) != nil {
+					why = append(why, fmt.Sprintf("%s caches the ring's size in %s.%s at %s", fnName(f), mgrT, fieldVar(fa).Name(), p.Pos(s.Pos())))
+				}
+			})
+		})
+	}
+	c.Check(len(why) == 0, "C45.ringsize/"+mgrT, p.Pos(tn.Pos()),
+		fmt.Sprintf("functions that decide dirtiness and read Ring.Len() %v: the size feeds a branch only as a before/after bracket of one mutation and is never cached", sizeFns),
+		strings.Join(why, "; ")+": equal numbers of joins and leaves leave the size unchanged, so ownership is not recomputed although the member set changed")
+	if nMut == 0 {
+		c.Lost("%s never calls a member-set mutator of its ring", mgrT)
 	}
 }
